@@ -4,7 +4,7 @@
 prop=$1; file=$2; old=$3; new=$4
 W=$(mktemp -d /tmp/mutXXXX); rmdir $W
 git -C /repo worktree add -q --detach $W HEAD || exit 2
-V=$(mktemp -d /tmp/mutvXXXX); cp /verif/known_findings.json $V/ 2>/dev/null
+V=$(mktemp -d /tmp/mutvXXXX); cp /verif/known_findings.json /verif/reference_funcs.json $V/ 2>/dev/null
 python3 - "$W/$file" "$old" "$new" <<'P'
 import sys
 p,old,new=sys.argv[1:4]
